@@ -1013,8 +1013,10 @@ impl Parser {
             let inp_term = self.get_input_els()?;
             if inp_term.is_empty() && inputs.is_empty() {
                 return Err(RuleSyntaxError::UnknownCharacter(self.curr_tkn.value.chars().next().unwrap(), self.group, self.line, self.pos))
-            } else if inp_term.is_empty() && !self.expect(TokenKind::Comma) {
-                break;
+            } else if inp_term.is_empty() {
+                if !self.expect(TokenKind::Comma) { break; }
+                // an empty term between two commas
+                return Err(RuleSyntaxError::EmptyInput(self.group, self.line, self.token_list[self.pos-1].position.start))
             }
             
             if let TokenKind::Diacritic(_) = self.curr_tkn.kind {
@@ -1060,8 +1062,10 @@ impl Parser {
             let out_term = self.get_output_els()?;
             if out_term.is_empty() && outputs.is_empty(){
                 return Err(RuleSyntaxError::EmptyOutput(self.group, self.line, self.token_list[self.pos].position.start))
-            } else if out_term.is_empty() && !self.expect(TokenKind::Comma) {
-                break;
+            } else if out_term.is_empty() {
+                if !self.expect(TokenKind::Comma) { break; }
+                // an empty term between two commas
+                return Err(RuleSyntaxError::EmptyOutput(self.group, self.line, self.token_list[self.pos-1].position.start))
             }
 
             if let TokenKind::Diacritic(_) = self.curr_tkn.kind {
